@@ -650,6 +650,17 @@ fn mixed_products(mon: &mut Monitor) {
                 }
             }
         }
+        // composing nothing is the identity map, composing one map is that map
+        macro_rules! idf {
+            ($($A:ident),*) => {$({
+                let e = core::iter::empty::<&$A>().product::<$A>();
+                c.event(vcommon::rng::hash_str(stringify!($A)), true);
+                if e != <$A>::IDENTITY {
+                    c.violation("law", &["composition", "Product of nothing"], stringify!($A).into(), format!("{:?}", e), "IDENTITY".into(), String::new());
+                }
+            })*};
+        }
+        idf!(Affine2, Affine3A, DAffine2, DAffine3);
         c.sample("X*Y for X,Y in {Affine3A,Mat4}, {Affine2,Mat3,Mat3A}, f64 forms, both operand orders; from(a*b)=from(a)*from(b); 2-D inverse".into());
         mon.end(c);
     }
